@@ -216,6 +216,10 @@ pub struct SchedState {
     pub waiting: Vec<bool>,
     pub finished: Vec<bool>,
     pub steps: Vec<(usize, &'static str)>,
+    /// the yield point each client is parked at
+    pub parked_at: Vec<&'static str>,
+    /// OS thread ids (to tell a client blocked on a lock from one that is still running)
+    pub tids: Vec<i32>,
 }
 
 pub struct Sched {
@@ -226,7 +230,7 @@ pub struct Sched {
 impl Sched {
     pub fn new(n: usize) -> Arc<Sched> {
         Arc::new(Sched {
-            st: Mutex::new(SchedState { grant: None, waiting: vec![false; n], finished: vec![false; n], steps: vec![] }),
+            st: Mutex::new(SchedState { grant: None, waiting: vec![false; n], finished: vec![false; n], steps: vec![], parked_at: vec![""; n], tids: vec![0; n] }),
             cv: Condvar::new(),
         })
     }
@@ -234,6 +238,10 @@ impl Sched {
     pub fn yield_here(&self, i: usize, what: &'static str) {
         let mut st = self.st.lock().unwrap();
         st.waiting[i] = true;
+        st.parked_at[i] = what;
+        if st.tids[i] == 0 {
+            st.tids[i] = unsafe { libc::syscall(libc::SYS_gettid) as i32 };
+        }
         self.cv.notify_all();
         while st.grant != Some(i) {
             st = self.cv.wait(st).unwrap();
@@ -256,16 +264,123 @@ pub const MAX_STEPS: usize = 20_000;
 #[cfg(memcrs_verif)]
 pub fn install_hook(s: Option<Arc<Sched>>) {
     match s {
-        Some(s) => memcrs::verif::set_yield(Some(Arc::new(move |what: &'static str| {
-            if let Some(i) = TID.with(|t| t.get()) {
-                s.yield_here(i, what);
-            }
-        }))),
-        None => memcrs::verif::set_yield(None),
+        Some(s) => {
+            let s2 = s.clone();
+            *crate::seq::CLOCK_HOOK.write().unwrap() = Some(Arc::new(move || {
+                if let Some(i) = TID.with(|t| t.get()) {
+                    s2.yield_here(i, "clock");
+                }
+            }));
+            memcrs::verif::set_yield(Some(Arc::new(move |what: &'static str| {
+                if let Some(i) = TID.with(|t| t.get()) {
+                    s.yield_here(i, what);
+                }
+            })))
+        }
+        None => {
+            *crate::seq::CLOCK_HOOK.write().unwrap() = None;
+            memcrs::verif::set_yield(None)
+        }
     }
 }
 #[cfg(not(memcrs_verif))]
 pub fn install_hook(_s: Option<Arc<Sched>>) {}
+
+
+/// Is the OS thread sleeping (blocked), as opposed to running or runnable?
+fn thread_sleeps(tid: i32) -> bool {
+    match std::fs::read_to_string(format!("/proc/self/task/{}/stat", tid)) {
+        Ok(s) => {
+            // "pid (comm) S ..."
+            match s.rfind(')') {
+                Some(i) => s[i + 1..].trim_start().starts_with('S'),
+                None => false,
+            }
+        }
+        Err(_) => false,
+    }
+}
+
+pub struct Driven {
+    pub order: Vec<usize>,
+    pub stuck: Option<(usize, String)>,
+}
+
+/// The scheduler loop: wait until every unfinished client is parked at a yield point,
+/// let `choose` pick the next one, grant it one step. A client that does not come back
+/// because it waits for a lock held by a client parked at a "clock" yield (the store
+/// reads the clock inside the entry lock of a conditional store) is blocked, not stuck:
+/// the holder is granted its next step, after which both come back. A step that does not
+/// return otherwise is reported (watchdog), and so is a case that never ends (livelock).
+pub fn drive(sched: &Arc<Sched>, n: usize, choose: &mut dyn FnMut(&[usize]) -> usize) -> Driven {
+    let mut order = Vec::new();
+    let mut stuck = None;
+    loop {
+        let t0 = Instant::now();
+        let mut st = sched.st.lock().unwrap();
+        let mut sleepy = 0;
+        loop {
+            let all_parked = st.grant.is_none() && (0..n).all(|i| st.finished[i] || st.waiting[i]);
+            if all_parked {
+                break;
+            }
+            let (g, to) = sched.cv.wait_timeout(st, Duration::from_millis(10)).unwrap();
+            st = g;
+            if !to.timed_out() {
+                sleepy = 0;
+                continue;
+            }
+            // somebody is neither parked nor finished: blocked on a lock whose holder is parked at a clock read?
+            if st.grant.is_none() {
+                let holder = (0..n).find(|h| st.waiting[*h] && !st.finished[*h] && st.parked_at[*h] == "clock");
+                let blocked: Vec<usize> = (0..n).filter(|i| !st.finished[*i] && !st.waiting[*i]).collect();
+                if let Some(h) = holder {
+                    if !blocked.is_empty() && blocked.iter().all(|i| st.tids[*i] != 0 && thread_sleeps(st.tids[*i])) {
+                        sleepy += 1;
+                        if sleepy >= 3 {
+                            sleepy = 0;
+                            order.push(h);
+                            st.grant = Some(h);
+                            sched.cv.notify_all();
+                            continue;
+                        }
+                    } else {
+                        sleepy = 0;
+                    }
+                }
+            }
+            if t0.elapsed() > STEP_WATCHDOG {
+                let who = order.last().copied().unwrap_or(0);
+                stuck = Some((who, format!("step {} of thread {} did not return while the others were parked", order.len(), who)));
+                break;
+            }
+        }
+        if stuck.is_some() {
+            break;
+        }
+        let runnable: Vec<usize> = (0..n).filter(|i| !st.finished[*i]).collect();
+        if runnable.is_empty() {
+            break;
+        }
+        if order.len() >= MAX_STEPS {
+            // every step returns but the operations never end: a livelock
+            let who = order.last().copied().unwrap_or(0);
+            stuck = Some((who, format!("no end after {} steps: thread {} keeps taking steps", MAX_STEPS, who)));
+            break;
+        }
+        let i = choose(&runnable);
+        order.push(i);
+        st.grant = Some(i);
+        sched.cv.notify_all();
+        drop(st);
+    }
+    Driven { order, stuck }
+}
+
+/// The schedule as the model sees it: reading the clock is not a step of its own there.
+pub fn model_schedule(sched: &Arc<Sched>) -> Vec<usize> {
+    sched.st.lock().unwrap().steps.iter().filter(|(_, what)| *what != "clock").map(|(i, _)| *i).collect()
+}
 
 pub struct ConcCase {
     pub id: String,
@@ -310,44 +425,8 @@ pub fn run_controlled(case: &ConcCase, choose: &mut dyn FnMut(&[usize]) -> usize
             sched.finish(i);
         }));
     }
-    let mut order = Vec::new();
-    let mut stuck = None;
-    loop {
-        // wait until every unfinished thread is parked at a yield point
-        let t0 = Instant::now();
-        let mut st = sched.st.lock().unwrap();
-        loop {
-            let all_parked = st.grant.is_none() && (0..n).all(|i| st.finished[i] || st.waiting[i]);
-            if all_parked {
-                break;
-            }
-            let (g, to) = sched.cv.wait_timeout(st, Duration::from_millis(50)).unwrap();
-            st = g;
-            if to.timed_out() && t0.elapsed() > STEP_WATCHDOG {
-                let who = order.last().copied().unwrap_or(0);
-                stuck = Some((who, format!("step {} of thread {} did not return while the others were parked", order.len(), who)));
-                break;
-            }
-        }
-        if stuck.is_some() {
-            break;
-        }
-        let runnable: Vec<usize> = (0..n).filter(|i| !st.finished[*i]).collect();
-        if runnable.is_empty() {
-            break;
-        }
-        if order.len() >= MAX_STEPS {
-            // every step returns but the operations never end: a livelock
-            let who = order.last().copied().unwrap_or(0);
-            stuck = Some((who, format!("no end after {} steps: thread {} keeps taking steps", MAX_STEPS, who)));
-            break;
-        }
-        let i = choose(&runnable);
-        order.push(i);
-        st.grant = Some(i);
-        sched.cv.notify_all();
-        drop(st);
-    }
+    let Driven { order: _, stuck } = drive(&sched, n, choose);
+    let order = model_schedule(&sched);
     install_hook(None);
     if stuck.is_none() {
         for h in handles {
@@ -726,45 +805,13 @@ pub fn run_sweep(seed: u64, cases: usize, monitor: &mut String) -> (u64, u64) {
                 sched.finish(i);
             }));
         }
-        let mut stuck = false;
-        let mut last = 0usize;
-        let mut case_steps = 0usize;
-        loop {
-            let t0 = Instant::now();
-            let mut st = sched.st.lock().unwrap();
-            loop {
-                let all_parked = st.grant.is_none() && (0..n).all(|i| st.finished[i] || st.waiting[i]);
-                if all_parked {
-                    break;
-                }
-                let (g, to) = sched.cv.wait_timeout(st, Duration::from_millis(50)).unwrap();
-                st = g;
-                if to.timed_out() && t0.elapsed() > STEP_WATCHDOG {
-                    stuck = true;
-                    break;
-                }
-            }
-            if stuck {
-                let what: Vec<String> = st.steps.iter().rev().take(6).map(|(i, w)| format!("{}:{}", i, w)).collect();
-                let _ = writeln!(monitor, "STUCK sweep-{}-{} thread_{}_did_not_return_last_steps_{}", seed, c, last, what.join(","));
-                break;
-            }
-            let runnable: Vec<usize> = (0..n).filter(|i| !st.finished[*i]).collect();
-            if runnable.is_empty() {
-                break;
-            }
-            if case_steps >= MAX_STEPS {
-                let what: Vec<String> = st.steps.iter().rev().take(6).map(|(i, w)| format!("{}:{}", i, w)).collect();
-                let _ = writeln!(monitor, "STUCK sweep-{}-{} no_end_after_{}_steps_last_steps_{}", seed, c, MAX_STEPS, what.join(","));
-                stuck = true;
-                break;
-            }
-            case_steps += 1;
-            last = runnable[rng.below(runnable.len() as u64) as usize];
-            st.grant = Some(last);
-            steps += 1;
-            sched.cv.notify_all();
-            drop(st);
+        let d = drive(&sched, n, &mut |runnable| runnable[rng.below(runnable.len() as u64) as usize]);
+        steps += d.order.len() as u64;
+        let stuck = d.stuck.is_some();
+        if let Some((who, why)) = &d.stuck {
+            let st = sched.st.lock().unwrap();
+            let what: Vec<String> = st.steps.iter().rev().take(6).map(|(i, w)| format!("{}:{}", i, w)).collect();
+            let _ = writeln!(monitor, "STUCK sweep-{}-{} thread_{}_{}_last_steps_{}", seed, c, who, why.replace(' ', "_"), what.join(","));
         }
         install_hook(None);
         if stuck {
